@@ -44,7 +44,7 @@ CLAIMS = {
         "design_ref": "DESIGN.md section 4 C17",
     },
     "C01": {
-        "engine": "V+K",
+        "engine": "V+K+F",
         "technique": "Verus on the extracted real escape_html (all strings) and on the WriteTop/WritePath arms of interpret lifted mechanically into functions (arm extraction); Kani table for the safe mark",
         "text": "Proof: (1) the default escaper writes exactly esc(input) for every string, esc containing none of < > \" ' (unbounded); (2) the two sink arms of the VM write, to the current sink and nowhere else, fmt(v) if autoescape is off or v is safe and escape_fn(fmt(v)) otherwise, an undefined value being an error (for all states); (3) autoescape_enabled is the per-call override if present else the template flag; the unsafe from_utf8_unchecked precondition at both sinks is discharged.",
         "note": "Assumed: Value::format writes fmt_spec (valid UTF-8) or fails leaving a prefix; the escape function pointer behaves as its spec; data flow through the other arms and the mint points of the safe mark are read, not proved.",
@@ -86,7 +86,7 @@ CLAIMS = {
         "design_ref": "DESIGN.md section 4 C06, 2.4",
     },
     "C07": {
-        "engine": "V+K",
+        "engine": "V+K+F",
         "technique": "Verus: Stack push/pop/peek contracts (expect => precondition), per-arm stack effects with 'pops <= |stack|' as precondition, unsafe from_utf8_unchecked preconditions at the sinks; Kani bounded on SmartString",
         "text": "Proof: Stack::pop/peek panic only on an empty stack (their precondition), every extracted arm pops no more than its stated precondition provides and leaves everything below untouched; both from_utf8_unchecked sites in interpret are preceded by Value::format filling the buffer (obligation discharged given format writes UTF-8).",
         "note": "The bulk of the property (stack balance of compiled code, reference collection completeness, span presence) is not decidable by contracts within reach and is listed as undecided.",
@@ -114,7 +114,7 @@ CLAIMS = {
         "design_ref": "DESIGN.md section 4 C08",
     },
     "C12": {
-        "engine": "V+K",
+        "engine": "V+K+F",
         "technique": "Verus contracts on the extracted Span::expand and Chunk::expand_span; Kani full-domain contract on combine_spans",
         "text": "Proof: Span::expand keeps the start fields and takes end line/column/range end from the other span; Chunk::expand_span returns None iff an endpoint instruction has no span and otherwise a span that starts where the first starts and ends where the last ends; combine_spans returns the least range covering both.",
         "note": "Line/column bookkeeping in the tokenizer, report_target and SourceLocation slicing are not decided; get_span is a trusted declaration; derived Clone of Span assumed to return an equal value.",
